@@ -22,6 +22,8 @@ pub enum Watch {
     Try,
     Select,
     Router,
+    /// the receiver is already blocked in recv (or mid-reassembly) while the sender dies
+    BlockedDuring,
 }
 
 #[derive(Clone, Debug, Serialize, Deserialize, PartialEq, Eq, Hash)]
@@ -165,7 +167,159 @@ impl Watcher {
     }
 }
 
+/// The receiver thread is blocked in a real recv() while the sender process runs to its crash
+/// point and dies (no scheduler: real blocking; every wait of the orchestrator is for an event
+/// that is due, the pool watchdog catches a hang).
+fn body_blocked_during(c: &Case) -> Result<(), String> {
+    let (tx, rx) = ipc::channel::<Msg>().map_err(|e| e.to_string())?;
+    if c.preceding {
+        tx.send(mk(ID_PRE, 1, false)).map_err(|e| e.to_string())?;
+    }
+    // fork both helper processes first (single-threaded), each waits for a start byte
+    let mut surv: Option<(i32, i32, i32)> = None;
+    unsafe {
+        if c.survivor {
+            let mut p2c = [0i32; 2];
+            let mut c2p = [0i32; 2];
+            libc::pipe(p2c.as_mut_ptr());
+            libc::pipe(c2p.as_mut_ptr());
+            let pid = libc::fork();
+            if pid == 0 {
+                interpose::after_fork_in_child();
+                libc::close(p2c[1]);
+                libc::close(c2p[0]);
+                drop(rx);
+                let mut b = [0u8];
+                if libc::read(p2c[0], b.as_mut_ptr() as *mut _, 1) == 1 {
+                    let ok = tx.send(mk(ID_SURV, 1, false)).is_ok();
+                    let a = [ok as u8];
+                    libc::write(c2p[1], a.as_ptr() as *const _, 1);
+                    libc::read(p2c[0], b.as_mut_ptr() as *mut _, 1);
+                }
+                libc::_exit(0);
+            }
+            libc::close(p2c[0]);
+            libc::close(c2p[1]);
+            surv = Some((pid, p2c[1], c2p[0]));
+        }
+    }
+    let mut go = [0i32; 2];
+    let crash_pid;
+    unsafe {
+        libc::pipe(go.as_mut_ptr());
+        let pid = libc::fork();
+        if pid == 0 {
+            interpose::after_fork_in_child();
+            libc::close(go[1]);
+            drop(rx);
+            if let Some((_, w, r)) = surv {
+                libc::close(w);
+                libc::close(r);
+            }
+            let mut b = [0u8];
+            libc::read(go[0], b.as_mut_ptr() as *mut _, 1);
+            let m = mk(ID_CUT, c.packets, c.attach);
+            interpose::set_crash_at(Some(c.crash_k));
+            interpose::arm();
+            let _ = tx.send(m);
+            interpose::die_now();
+        }
+        libc::close(go[0]);
+        crash_pid = pid;
+    }
+    drop(tx);
+    // the receiver blocks first, then the sender is let loose
+    let (rtx, rrx) = std::sync::mpsc::channel::<Result<Seen, String>>();
+    let (packets, attach) = (c.packets, c.attach);
+    let th = std::thread::spawn(move || loop {
+        let s = match rx.recv() {
+            Ok(m) => classify(m, packets, attach),
+            Err(IpcError::Disconnected) => Ok(Seen::Closed),
+            Err(e) => Ok(Seen::Error(format!("{:?}", e))),
+        };
+        let end = matches!(s, Ok(Seen::Closed) | Err(_));
+        if rtx.send(s).is_err() || end {
+            break;
+        }
+    });
+    unsafe {
+        let b = [1u8];
+        libc::write(go[1], b.as_ptr() as *const _, 1);
+        libc::close(go[1]);
+        let mut st = 0;
+        libc::waitpid(crash_pid, &mut st, 0);
+        if !(libc::WIFSIGNALED(st) && libc::WTERMSIG(st) == libc::SIGKILL) {
+            return Err(format!("MACHINERY: the crashing sender ended with status {:#x} instead of SIGKILL", st));
+        }
+    }
+    let mut log = Vec::new();
+    let mut next = |log: &mut Vec<Seen>| -> Result<Seen, String> {
+        let s = rrx.recv().map_err(|_| "receiver thread ended unexpectedly".to_string())??;
+        log.push(s.clone());
+        Ok(s)
+    };
+    let mut cut_seen = false;
+    let mut pre_seen = !c.preceding;
+    if let Some((spid, cw, cr)) = surv {
+        unsafe {
+            let b = [1u8];
+            libc::write(cw, b.as_ptr() as *const _, 1);
+            let mut a = [0u8];
+            if libc::read(cr, a.as_mut_ptr() as *mut _, 1) != 1 || a[0] != 1 {
+                return Err("[survivor-cannot-send] the surviving sender's send failed".into());
+            }
+        }
+        let mut n = 0;
+        loop {
+            n += 1;
+            if n > 6 {
+                return Err(format!("the surviving sender's message never arrived: {:?}", log));
+            }
+            match next(&mut log)? {
+                Seen::Msg(ID_PRE) if !pre_seen => pre_seen = true,
+                Seen::Msg(ID_CUT) if !cut_seen && pre_seen => cut_seen = true,
+                Seen::Error(_) => {},
+                Seen::Msg(ID_SURV) if pre_seen => break,
+                Seen::Closed => return Err(format!("[closed-while-survivor] a receiver blocked in recv was told 'disconnected' although another process still holds a sender handle (crash at call {} of {})", c.crash_k, c.n_calls)),
+                other => return Err(format!("a receiver blocked during the crash saw {:?} (log {:?})", other, log)),
+            }
+        }
+        unsafe {
+            libc::close(cw);
+            libc::close(cr);
+            let mut st = 0;
+            libc::waitpid(spid, &mut st, 0);
+        }
+    }
+    let mut n = 0;
+    loop {
+        n += 1;
+        if n > 6 {
+            return Err(format!("the receiver never reached the end: {:?}", log));
+        }
+        match next(&mut log)? {
+            Seen::Msg(ID_PRE) if !pre_seen => pre_seen = true,
+            Seen::Msg(ID_CUT) if !cut_seen && pre_seen && !c.survivor => cut_seen = true,
+            Seen::Error(_) if !c.survivor => {},
+            Seen::Closed => break,
+            other => return Err(format!("after the last sender was gone a blocked receiver saw {:?} (log {:?})", other, log)),
+        }
+    }
+    let _ = th.join();
+    if !pre_seen {
+        return Err("[completed-message-lost] the message completed before the crash was not delivered".into());
+    }
+    if c.crash_k >= c.n_calls && !cut_seen {
+        return Err("[completed-message-lost] the send had returned before the process died, but the message was not delivered".into());
+    }
+    obs(format!("{:?}", log));
+    Ok(())
+}
+
 pub fn body(c: &Case) -> Result<(), String> {
+    if c.watch == Watch::BlockedDuring {
+        return body_blocked_during(c);
+    }
     let (tx, rx) = ipc::channel::<Msg>().map_err(|e| e.to_string())?;
     if c.preceding {
         tx.send(mk(ID_PRE, 1, false)).map_err(|e| e.to_string())?;
@@ -232,6 +386,7 @@ pub fn body(c: &Case) -> Result<(), String> {
             let id = set.add(rx).map_err(|e| e.to_string())?;
             Watcher::Set(set, id, VecDeque::new())
         },
+        Watch::BlockedDuring => unreachable!(),
         Watch::Router => {
             let proxy = RouterProxy::new();
             let (xtx, xrx) = crossbeam_channel::unbounded::<Seen>();
@@ -350,8 +505,8 @@ pub fn body(c: &Case) -> Result<(), String> {
     Ok(())
 }
 
-pub fn cfg_of(_: &Case) -> Cfg {
-    Cfg { sched: true, fake_sndbuf: Some(4608), ..Default::default() }
+pub fn cfg_of(c: &Case) -> Cfg {
+    Cfg { sched: c.watch != Watch::BlockedDuring, fake_sndbuf: Some(4608), ..Default::default() }
 }
 
 pub fn cases(tier: Tier) -> Result<Vec<Case>, String> {
@@ -362,7 +517,7 @@ pub fn cases(tier: Tier) -> Result<Vec<Case>, String> {
             let n = measure(p, attach)?;
             for k in 0..=n {
                 for survivor in [false, true] {
-                    for watch in [Watch::Blocking, Watch::Try, Watch::Select, Watch::Router] {
+                    for watch in [Watch::Blocking, Watch::Try, Watch::Select, Watch::Router, Watch::BlockedDuring] {
                         for preceding in [false, true] {
                             if tier.is_quick() && preceding && !(watch == Watch::Blocking || watch == Watch::Select) {
                                 continue;
@@ -404,7 +559,7 @@ pub fn run(tier: Tier, _part: bool) -> i32 {
     }
     rep.set("evaluations", json!(n));
     rep.set("distinct_nontrivial", json!(outcomes.len()));
-    rep.set("rule", json!("case = (message of 1..6 packets [1,2,4 quick], with/without sender+region, 0/1 completed message before, crash index k = every transport system call boundary of that send 0..=N [N measured by a dry run: socketpair, sendmsg, each send, each close], 0/1 surviving sender handle in another process, observer in {blocking recv where a result is due, try_recv, receiver set, router callback}); distinct_nontrivial = distinct (case, observation log) outcomes that passed"));
+    rep.set("rule", json!("case = (message of 1..6 packets [1,2,4 quick], with/without sender+region, 0/1 completed message before, crash index k = every transport system call boundary of that send 0..=N [N measured by a dry run: socketpair, sendmsg, each send, each close], 0/1 surviving sender handle in another process, observer in {blocking recv where a result is due, try_recv, receiver set, router callback, receiver already blocked in recv while the sender dies}); distinct_nontrivial = distinct (case, observation log) outcomes that passed"));
     rep.set("exhaustive", json!(true));
     rep.sample(serde_json::to_value(&cs[cs.len() / 2]).unwrap());
     rep.sample(serde_json::to_value(&cs[cs.len() - 1]).unwrap());
